@@ -18,12 +18,13 @@ import JRV.Driver.Pool
 import JRV.Driver.JsonText
 import JRV.Driver.JsonClassExt
 import JRV.Driver.ClientWire
+import JRV.Driver.ByteBody
 
 namespace JRV.Driver
 
 def components : List (String × (List String → String)) := [
   ("echo", echo), ("norm", norm), ("truthy", truthyC), ("pyeq", pyeqC), ("cmpint", cmpIntC)
-] ++ clientComponents ++ payloadComponents ++ headersComponents ++ wireComponents ++ configHeapComponents ++ transportComponents ++ serverLifeComponents ++ serverComponents ++ jsonClassComponents ++ endToEndComponents ++ futureComponents ++ poolComponents ++ jsonTextComponents ++ jsonClassExtComponents ++ clientWireComponents
+] ++ clientComponents ++ payloadComponents ++ headersComponents ++ wireComponents ++ configHeapComponents ++ transportComponents ++ serverLifeComponents ++ serverComponents ++ jsonClassComponents ++ endToEndComponents ++ futureComponents ++ poolComponents ++ jsonTextComponents ++ jsonClassExtComponents ++ clientWireComponents ++ byteBodyComponents
 
 def handle (line : String) : String :=
   match JRV.Codec.tokens line with
